@@ -8,6 +8,21 @@ import traceback
 from . import common
 
 
+def _worker(pid, tier, seed, i, driver_ok):
+    import contextlib, io, random
+    try:
+        mod = importlib.import_module('harness.' + pid.lower())
+        ctx = common.Ctx(pid, tier, seed)
+        ctx.rng = random.Random((seed * 1000003 + int(pid[1:])) * 7919 + i)
+        ctx.driver_ok = driver_ok
+        ctx.stream = i
+        with contextlib.redirect_stdout(io.StringIO()), contextlib.redirect_stderr(io.StringIO()):
+            mod.run(ctx)
+        return common.export(ctx)
+    except Exception:
+        return {'error': traceback.format_exc()}
+
+
 def main(argv):
     if len(argv) < 2:
         print('usage: check Cxx quick|thorough [--replay file]')
@@ -31,8 +46,28 @@ def main(argv):
         common.prove(ctx, modules=getattr(mod, 'LEAN_MODULES', None), clean=(tier == 'thorough'))
         # the implementation under test prints warnings/progress: keep stdout for the verdict lines only
         import contextlib, io
+        workers = int(os.environ.get('VERIF_WORKERS', '0') or 0) or (1 if tier == 'quick' else 8)
+        os.environ.setdefault('OMP_NUM_THREADS', '2' if workers > 1 else '8')
+        futs = []
+        pool = None
+        if workers > 1:
+            # thorough tier: the same exploration from `workers` independent PRNG streams, in parallel processes.
+            # worker 0 (this process) keeps the stream of the given seed, so a replay by seed stays valid.
+            import concurrent.futures, multiprocessing
+            pool = concurrent.futures.ProcessPoolExecutor(max_workers=workers - 1, mp_context=multiprocessing.get_context('fork'))
+            futs = [pool.submit(_worker, pid, tier, seed, i, ctx.driver_ok) for i in range(1, workers)]
         with contextlib.redirect_stdout(io.StringIO()), contextlib.redirect_stderr(io.StringIO()):
             mod.run(ctx)
+        for i, f in enumerate(futs, 1):
+            res = f.result()
+            if 'error' in res:
+                print(res['error'])
+                print('INFRASTRUCTURE-ERROR property=%s (worker %d)' % (pid, i))
+                return 2
+            common.merge(ctx, res)
+        if pool is not None:
+            pool.shutdown()
+            ctx.cov['parallel_streams'] = workers
         return common.finish(ctx)
     except Exception:
         traceback.print_exc()
